@@ -79,19 +79,29 @@ def clean_tree(
         delete_items(deletables, dry_run=dry_run)
 
 
+def _contains_nested_controldir(path):
+    """Return True if something below the directory path is a control directory."""
+    for _dirpath, dirnames, filenames in os.walk(path):
+        # a control "directory" can also be a file, e.g. a .git link file
+        for name in dirnames + filenames:
+            if controldir.is_control_filename(name):
+                return True
+    return False
+
+
 def _filter_out_nested_controldirs(deletables):
     result = []
     for path, subp in deletables:
-        # bzr won't recurse into unknowns/ignored directories by default
-        # so we don't pay a penalty for checking subdirs of path for nested
-        # control dir.
-        # That said we won't detect the branch in the subdir of non-branch
-        # directory and therefore delete it. (worth to FIXME?)
+        # bzr won't recurse into unknowns/ignored directories by default,
+        # so a branch nested anywhere below such a directory has to be looked
+        # for here: the whole directory is about to be removed. The directory
+        # is kept when it is, or contains, a branch.
         if isdir(path):
             try:
                 controldir.ControlDir.open(path)
             except errors.NotBranchError:
-                result.append((path, subp))
+                if not _contains_nested_controldir(path):
+                    result.append((path, subp))
             else:
                 # TODO may be we need to notify user about skipped directories?
                 pass
